@@ -19,6 +19,7 @@ EXPLANATION = ('EPOCH: GroupContext.epoch is written by exactly one function out
                'the provisional state is installed (epoch secrets, context, interim hash, key schedule, tree, confirmation tag; '
                'proposal cache, pending updates and pending commit reset; private tree) and a pending commit installs state, epoch '
                'secrets, private tree, key schedule and signer. Equality of the derived values over histories is not decided.')
+EXPLANATION += ' FAIL-ATOMIC (restricted): no component of the epoch state is written while the operation that changes the epoch can still fail. EXHAUSTIVE-LOOP / SIBLING: committer, receiver and joiner derive a key for every unfiltered node of the path.'
 ASSUMPTIONS = ['TreeKEM resolution / LCA / filtered-path arithmetic is value-level (not decided)']
 
 
